@@ -86,6 +86,17 @@ Definition file_find (nm : string) (f : list fnode) : option fnode :=
 Definition file_has (nm : string) (f : list fnode) : bool :=
   match file_find nm f with Some _ => true | None => false end.
 
+(* "... or add a Node": CGNS_RENEW(count + 1), fill slot [count], count++, cgi_new_node (appended in the file); a name
+   that already exists under the parent makes cgi_new_node fail AFTER the array was extended (slot id 0 from the memset) *)
+Definition append_new (s : parent) (k nm : string) (p : Z) : parent * Z * Z :=
+  let l := mget k (p_mir s) in
+  let i := List.length l in
+  if file_has nm (p_file s) then
+    (mkP (mset k (l ++ [mkS nm 0 p]) (p_mir s)) (p_file s) (p_next s), 1, Z.of_nat i + 1)
+  else
+    (mkP (mset k (l ++ [mkS nm (p_next s) p]) (p_mir s))
+         (p_file s ++ [mkF (p_next s) k nm p]) (p_next s + 1), 0, Z.of_nat i + 1).
+
 (* result of a write: new state, status (0 = CG_OK, 1 = CG_ERROR), 1-based index handed back ( *S = index + 1 ) *)
 Definition write (s : parent) (k nm : string) (p : Z) : parent * Z * Z :=
   let l := mget k (p_mir s) in
@@ -104,13 +115,27 @@ Definition write (s : parent) (k nm : string) (p : Z) : parent * Z * Z :=
                      (f1 ++ [mkF (p_next s) k nm p]) (p_next s + 1), 0, Z.of_nat i + 1)
           end
       end
-  | None =>
-      let i := List.length l in
-      if file_has nm (p_file s) then
-        (mkP (mset k (l ++ [mkS nm 0 p]) (p_mir s)) (p_file s) (p_next s), 1, Z.of_nat i + 1)
-      else
-        (mkP (mset k (l ++ [mkS nm (p_next s) p]) (p_mir s))
-             (p_file s ++ [mkF (p_next s) k nm p]) (p_next s + 1), 0, Z.of_nat i + 1)
+  | None => append_new s k nm p
+  end.
+
+(* cg_coord_write / cg_field_write / cg_particle_*_write and the other callers of cgi_array_general_write
+   (cgns_internals.c): an existing DataArray_t of that name (same rank, dimensions and type) is REWRITTEN IN PLACE --
+   same database node, same slot, cgio_write_data on the stored id; only a new name is appended *)
+Definition updn (id p : Z) (n : fnode) : fnode :=
+  if f_id n =? id then mkF (f_id n) (f_kind n) (f_name n) p else n.
+Definition file_upd (id p : Z) (f : list fnode) : list fnode := map (updn id p) f.
+
+Definition write_inplace (s : parent) (k nm : string) (p : Z) : parent * Z * Z :=
+  let l := mget k (p_mir s) in
+  match find_slot nm l with
+  | Some i =>
+      match nth_error l i with
+      | None => (s, 1, 0)
+      | Some sl =>
+          (mkP (mset k (set_nth l i (mkS nm (s_id sl) p)) (p_mir s)) (file_upd (s_id sl) p (p_file s)) (p_next s),
+           0, Z.of_nat i + 1)
+      end
+  | None => append_new s k nm p
   end.
 
 (* CGNS_DELETE_SHIFT: name loop, free, shift down, count-- ; None = "Can't find node" *)
@@ -173,11 +198,12 @@ Fixpoint vindex (nm : string) (v : list (string * Z)) : option nat :=
   end.
 
 (* ---- histories *)
-Inductive op := OWrite (k nm : string) (p : Z) | ODelete (nm : string) | OReopen.
+Inductive op := OWrite (k nm : string) (p : Z) | OUpdate (k nm : string) (p : Z) | ODelete (nm : string) | OReopen.
 
 Definition step (disp : string -> string -> daction) (s : parent) (o : op) : parent * Z :=
   match o with
   | OWrite k nm p => let '(s', st, _) := write s k nm p in (s', st)
+  | OUpdate k nm p => let '(s', st, _) := write_inplace s k nm p in (s', st)
   | ODelete nm => delete disp s nm
   | OReopen => (reopen s, 0)
   end.
@@ -205,7 +231,7 @@ Definition i_set (nm : string) (v : string * Z) (t : ideal) : ideal := (nm, v) :
 
 Definition i_step (t : ideal) (o : op) : ideal * Z :=
   match o with
-  | OWrite k nm p =>
+  | OWrite k nm p | OUpdate k nm p =>
       match i_get nm t with
       | Some (k', _) => if String.eqb k' k then (i_set nm (k, p) t, 0) else (t, 1)   (* the name is taken by another kind *)
       | None => (i_set nm (k, p) t, 0)
@@ -238,7 +264,7 @@ Fixpoint hist_order_safe (disp : string -> string -> daction) (s : parent) (ops 
   end.
 
 Definition op_names_ok (kok nok : string -> bool) (o : op) : bool :=
-  match o with OWrite k nm _ => kok k && nok nm | ODelete nm => nok nm | OReopen => true end.
+  match o with OWrite k nm _ | OUpdate k nm _ => kok k && nok nm | ODelete nm => nok nm | OReopen => true end.
 
 (* ================================================================================================ PART B *)
 (* rows of the dispatcher of cg_delete_node as Gen_C04.v lists them *)
@@ -348,6 +374,12 @@ Definition daction_eqb (a b : daction) : bool :=
   | _, _ => false
   end.
 
+(* arrays the goto table walks with a name loop although they can hold one fixed-name element only (cgi_array_address
+   refuses every DataArray_t name but GravityVector under Gravity_t, and the refusal list protects that one) *)
+Definition fixed_name_arrays : list (string * string) := [("Gravity_t", "DataArray_t")].
+Definition is_fixed_name (pl l : string) : bool :=
+  existsb (fun x => String.eqb (fst x) pl && String.eqb (snd x) l) fixed_name_arrays.
+
 (* the sibling kinds of a parent: the child labels the goto table walks with a name loop, and the labels with a
    label-selected shift arm *)
 Definition arm_multi_labels (a : Goto.arm) : list string :=
@@ -378,8 +410,16 @@ Definition candidate_kinds (dt : list dblock) (gt : list Goto.brow) (pl : string
 (* the kinds for which deleting a sibling with an unreserved name shifts the array of that very kind *)
 Definition sound_kinds (dt : list dblock) (nd : list ndrow) (gt : list Goto.brow) (pl : string) : list string :=
   filter (fun l => daction_eqb (disp_lab dt nd gt pl l) (DShift l)) (candidate_kinds dt gt pl).
+(* the kinds for which it does something else (refusal and arrays shared by two labels of one goto arm are fine) *)
+Definition shares_arm (gt : list Goto.brow) (pl l : string) (a : daction) : bool :=
+  match a, Goto.find_block gt pl with
+  | DShift l', Some (Goto.Block _ _ arms) =>
+      existsb (fun arm => match arm with Goto.Arm cs _ => smem l cs && smem l' cs | _ => false end) arms
+  | _, _ => false
+  end.
 Definition unsound_kinds (dt : list dblock) (nd : list ndrow) (gt : list Goto.brow) (pl : string) : list string :=
-  filter (fun l => negb (daction_eqb (disp_lab dt nd gt pl l) (DShift l) || daction_eqb (disp_lab dt nd gt pl l) DRefuse))
+  filter (fun l => negb (daction_eqb (disp_lab dt nd gt pl l) (DShift l) || daction_eqb (disp_lab dt nd gt pl l) DRefuse
+                         || shares_arm gt pl l (disp_lab dt nd gt pl l) || is_fixed_name pl l))
          (candidate_kinds dt gt pl).
 
 (* (parent, kind, reserved name) triples for which a sibling of a sound kind, when it carries that name, is NOT
@@ -462,7 +502,7 @@ Definition row_shift_of (nl : string) (rows : list drow) : option (string * stri
 Definition arm_delete_ok (nd : list ndrow) (pl : string) (rows : list drow) (a : Goto.arm) : bool :=
   match a with
   | Goto.Arm cs [Goto.AMulti cl al _ _ _ _ _ _ _ _ _] =>
-      forallb (fun l => refused_lab nd pl l ||
+      forallb (fun l => refused_lab nd pl l || is_fixed_name pl l ||
                         match row_shift_of l rows with
                         | Some (cnt, arr) => String.eqb cnt cl && String.eqb arr al
                         | None => false
